@@ -25,6 +25,9 @@ pub struct Vm {
     pub orig: u16,
     pub stack_enabled: bool,
     pub minimal: bool,
+    /// PUTS ends at a word that is x0000 (the ISA's wording) instead of at a word whose low
+    /// byte is zero (lace's reading). The two only differ on a word like x4100.
+    pub puts_whole_word: bool,
 }
 
 #[derive(Clone, Debug, PartialEq, Eq)]
@@ -72,6 +75,11 @@ pub struct Io {
     /// documentation (see `adopted`): comparison of this run's output stops at the first one.
     pub adopted_at: Option<usize>,
     pub adopted: u64,
+    /// Offset in `output` of the first PUTS terminator on which the two readings differ.
+    pub puts_ambiguous_at: Option<usize>,
+    /// Zero-width places in `output` where a register table in decorated (non-minimal) form is
+    /// printed: its layout is not specified, its contents are (the values, in this order).
+    pub tables: Vec<(usize, Vec<String>)>,
     /// Number of GETC/IN executions (including the one that found the input exhausted).
     pub input_requests: u64,
 }
@@ -93,12 +101,184 @@ impl Io {
         let mut buf = [0u8; 4];
         self.output.extend_from_slice(ch.encode_utf8(&mut buf).as_bytes());
     }
+    /// First offset of `output` from which the expected text is not a single determined string.
+    pub fn unspecified_at(&self) -> Option<usize> {
+        [self.adopted_at, self.puts_ambiguous_at, self.tables.first().map(|t| t.0)]
+            .into_iter()
+            .flatten()
+            .min()
+    }
+
+    /// Does `got` agree with the expected output? Register tables match any text that holds
+    /// their values in order; from `adopted_at` on nothing is compared. `Err`: how far `got`
+    /// agreed.
+    pub fn output_matches(&self, got: &[u8]) -> Result<(), Mismatch> {
+        let limit = self.adopted_at.unwrap_or(usize::MAX).min(self.output.len());
+        let prefix_only = self.adopted_at.is_some();
+        let tables: Vec<&(usize, Vec<String>)> = self.tables.iter().filter(|t| t.0 <= limit).collect();
+        let mut furthest = Mismatch::default();
+        let mut failed = std::collections::HashSet::new();
+        if match_from(&self.output[..limit], &tables, 0, 0, got, 0, prefix_only, &mut furthest, &mut failed) {
+            Ok(())
+        } else {
+            Err(furthest)
+        }
+    }
+
     fn mark_adopted(&mut self) {
         self.adopted += 1;
         if self.adopted_at.is_none() {
             self.adopted_at = Some(self.output.len());
         }
     }
+}
+
+/// How far an output agreed with the expected one.
+#[derive(Clone, Copy, Debug, Default)]
+pub struct Mismatch {
+    /// Offset in the real output.
+    pub got_at: usize,
+    /// Offset in the expected output.
+    pub exp_at: usize,
+    /// The disagreement is inside a register table.
+    pub in_table: bool,
+}
+
+/// End of the shortest prefix of `text` that holds `tokens` in order (ASCII case-insensitive).
+fn tokens_end(text: &[u8], tokens: &[String]) -> Option<usize> {
+    let mut at = 0usize;
+    for token in tokens {
+        let t = token.as_bytes();
+        let found = (at..=text.len().saturating_sub(t.len())).find(|i| text.len() >= t.len() && text[*i..*i + t.len()].eq_ignore_ascii_case(t))?;
+        at = found + t.len();
+    }
+    Some(at)
+}
+
+/// A line of decoration: no ASCII letter or digit outside ANSI escape sequences.
+fn is_border_line(line: &[u8]) -> bool {
+    let mut i = 0;
+    while i < line.len() {
+        if line[i] == 0x1b && line.get(i + 1) == Some(&b'[') {
+            i += 2;
+            while i < line.len() && !line[i].is_ascii_alphabetic() {
+                i += 1;
+            }
+            i += 1;
+            continue;
+        }
+        if line[i].is_ascii_alphanumeric() {
+            return false;
+        }
+        i += 1;
+    }
+    true
+}
+
+/// `exp[ei..]` with the tables from `ti` on against `got[gi..]`.
+#[allow(clippy::too_many_arguments)]
+fn match_from(
+    exp: &[u8],
+    tables: &[&(usize, Vec<String>)],
+    ti: usize,
+    ei: usize,
+    got: &[u8],
+    gi: usize,
+    prefix_only: bool,
+    furthest: &mut Mismatch,
+    failed: &mut std::collections::HashSet<(usize, usize)>,
+) -> bool {
+    if failed.contains(&(ti, gi)) {
+        return false;
+    }
+    let ok = match_here(exp, tables, ti, ei, got, gi, prefix_only, furthest, failed);
+    if !ok {
+        failed.insert((ti, gi));
+    }
+    ok
+}
+
+/// A decorated table is at most this long.
+const TABLE_WINDOW: usize = 8192;
+
+#[allow(clippy::too_many_arguments)]
+fn match_here(
+    exp: &[u8],
+    tables: &[&(usize, Vec<String>)],
+    ti: usize,
+    ei: usize,
+    got: &[u8],
+    gi: usize,
+    prefix_only: bool,
+    furthest: &mut Mismatch,
+    failed: &mut std::collections::HashSet<(usize, usize)>,
+) -> bool {
+    // Literal part up to the next table (or the end)
+    let lit_end = tables.get(ti).map(|t| t.0).unwrap_or(exp.len());
+    let lit = &exp[ei..lit_end];
+    let agree = lit.iter().zip(got[gi.min(got.len())..].iter()).take_while(|(a, b)| a == b).count();
+    if gi + agree >= furthest.got_at {
+        *furthest = Mismatch {
+            got_at: gi + agree,
+            exp_at: ei + agree,
+            in_table: agree == lit.len() && tables.get(ti).is_some(),
+        };
+    }
+    if agree < lit.len() {
+        return false;
+    }
+    let gi = gi + lit.len();
+    let Some(table) = tables.get(ti) else {
+        return prefix_only || gi == got.len();
+    };
+    // The table: any text holding the values in order, followed by the rest
+    let window = &got[gi..got.len().min(gi + TABLE_WINDOW)];
+    let Some(min_end) = tokens_end(window, &table.1) else {
+        return false;
+    };
+    if gi + min_end > furthest.got_at {
+        *furthest = Mismatch {
+            got_at: gi + min_end,
+            exp_at: lit_end,
+            in_table: false,
+        };
+    }
+    // Where the table may end: anywhere on the rest of the line that holds its last value, or
+    // after one of the few border lines (no letters or digits outside escape sequences) below it
+    let mut ends: Vec<usize> = Vec::new();
+    let mut at = min_end;
+    loop {
+        ends.push(gi + at);
+        if at >= window.len() || at - min_end > 256 {
+            break;
+        }
+        at += 1;
+        if window[at - 1] == b'\n' {
+            ends.push(gi + at);
+            break;
+        }
+    }
+    for _ in 0..4 {
+        let Some(len) = window[at.min(window.len())..].iter().position(|b| *b == b'\n') else {
+            break;
+        };
+        if !is_border_line(&window[at..at + len]) {
+            break;
+        }
+        at += len + 1;
+        ends.push(gi + at);
+    }
+    // Cheap test first: the byte that must follow the table
+    let next_byte = exp.get(lit_end).copied().filter(|_| tables.get(ti + 1).map(|t| t.0 > lit_end).unwrap_or(true));
+    ends.dedup();
+    ends.into_iter().any(|end| {
+        if let Some(b) = next_byte {
+            if got.get(end) != Some(&b) {
+                return false;
+            }
+        }
+        match_from(exp, tables, ti + 1, lit_end, got, end, prefix_only, furthest, failed)
+    })
 }
 
 /// Result of one fetch/execute cycle.
@@ -138,6 +318,7 @@ impl Vm {
             orig: orig as u16,
             stack_enabled,
             minimal,
+            puts_whole_word: false,
         })
     }
 
@@ -152,6 +333,7 @@ impl Vm {
             orig,
             stack_enabled,
             minimal,
+            puts_whole_word: false,
         }
     }
 
@@ -364,13 +546,16 @@ impl Vm {
                     let word = self.mem[addr as usize];
                     if word & 0xFF == 0 {
                         if word != 0 {
-                            // Terminator per ISA is x0000; a zero low byte under a non-zero high
-                            // byte is not covered by the documentation
-                            io.mark_adopted();
+                            // Terminator per ISA is x0000, lace ends the string at a zero low
+                            // byte: both readings are accepted, each as a whole
+                            if io.puts_ambiguous_at.is_none() {
+                                io.puts_ambiguous_at = Some(io.output.len());
+                            }
                         }
-                        break;
-                    }
-                    if word > 0xFF {
+                        if word == 0 || !self.puts_whole_word {
+                            break;
+                        }
+                    } else if word > 0xFF {
                         io.mark_adopted();
                     }
                     io.put_char((word & 0xFF) as u32, minimal);
@@ -414,8 +599,12 @@ impl Vm {
             }
             0x27 => {
                 if !self.minimal {
-                    // The fancy table of non-minimal mode is decoration, not specified
-                    io.mark_adopted();
+                    // The layout of the table of non-minimal mode is decoration; the values it
+                    // shows are not
+                    let mut values: Vec<String> = (0..8).map(|i| format!("0x{:04x}", self.reg[i])).collect();
+                    values.push(format!("0x{:04x}", self.pc));
+                    values.push(format!("{:03b}", self.cc));
+                    io.tables.push((io.output.len(), values));
                 } else {
                     for i in 0..8 {
                         io.output
